@@ -146,7 +146,16 @@ pub fn check(q: &DpQuery, w: &DpWorld, params: &DpParameters, sd_tables: Option<
         .filter(|n| n.columns.iter().any(|(c, s)| c != COUNT_DISTINCT_PID && *s > 0.0))
         .map(|n| (n.node.clone(), n))
         .collect();
-    let s1: HashSet<String> = taus.iter().map(|t| t.node.clone()).collect();
+    // a key-release filter is a sanctioned channel only if the count it thresholds is a noised one
+    let noisy_counts: HashSet<String> = noises
+        .iter()
+        .filter(|n| n.columns.iter().any(|(c, s)| c == COUNT_DISTINCT_PID && *s > 0.0))
+        .map(|n| n.node.clone())
+        .collect();
+    let s1: HashSet<String> = taus.iter().filter(|t| noisy_counts.contains(&t.input)).map(|t| t.node.clone()).collect();
+    if s1.len() < taus.len() {
+        rep.count("threshold_filters_on_an_un-noised_count(not sanctioned)");
+    }
     let noise_names: HashSet<String> = noises.iter().map(|n| n.node.clone()).collect();
     let script = |db: &Db, name: &str| {
         if noise_names.contains(name) {
